@@ -372,6 +372,45 @@ fn table_xml(t: &GenTable) -> String {
 
 /// The generated table as the `DecisionTable` value the recogniser / XML parser deliver
 /// (second observation point: `dmntk_model_evaluator::build_decision_table_evaluator`).
+/// Always-run corpus: the witnesses of the repaired findings F19 (default output entries of a
+/// table with several output clauses) and F20 (C> over outputs that include null), with the
+/// index of their hit policy in `POLICIES`.
+fn corpus_tables() -> Vec<(usize, GenTable)> {
+  let input = || vec![InClause { name: "i1".into(), ty: Ty::Num, input_values: None }];
+  let out = |name: &str, ov: Option<&str>, d: Option<&str>| OutClause { name: Some(name.into()), ty: Ty::Num, output_values: ov.map(|s| s.to_string()), default: d.map(|s| s.to_string()) };
+  let rule = |i: &str, o: &[&str]| GenRule { inputs: vec![i.into()], outputs: o.iter().map(|s| s.to_string()).collect() };
+  let mut res = vec![];
+  for (da, db) in [(Some("1"), Some("2")), (None, Some("2")), (Some("1"), None), (None, None)] {
+    // policies U, F, C, C+ (compound: aggregators give null)
+    for ix in [0usize, 3, 6, 7] {
+      res.push((
+        ix,
+        GenTable {
+          hit_policy: POLICIES[ix].0,
+          aggregation: POLICIES[ix].1,
+          ins: input(),
+          outs: vec![out("a", None, da), out("b", None, db)],
+          rules: vec![rule("100", &["7", "8"])],
+        },
+      ));
+    }
+  }
+  for ix in [9usize, 8, 7] {
+    // output values 1,3: the entry 2 becomes null through Out()
+    res.push((
+      ix,
+      GenTable {
+        hit_policy: POLICIES[ix].0,
+        aggregation: POLICIES[ix].1,
+        ins: input(),
+        outs: vec![out("a", Some("1,3"), None)],
+        rules: vec![rule("-", &["1"]), rule("-", &["2"]), rule("-", &["3"])],
+      },
+    ));
+  }
+  res
+}
+
 fn table_struct(t: &GenTable) -> dmntk_model::model::DecisionTable {
   use dmntk_model::model::*;
   let hit_policy = match (t.hit_policy.map(|s| s.trim()), t.aggregation) {
@@ -731,9 +770,20 @@ pub fn run(cfg: &Cfg) -> Report {
     any_default: bool,
   }
   let mut cases: Vec<Case> = vec![];
-  for ti in 0..n_tables {
-    let policy_ix = if ti % 16 < 11 { ti % 16 } else { rng.below(POLICIES.len() as u64) as usize };
-    let (t, wits) = gen_table(&mut rng, policy_ix);
+  let mut corpus = corpus_tables();
+  corpus.reverse();
+  for ti in 0..(corpus.len() + n_tables) {
+    // the always-run corpus (witnesses of repaired findings) first, then generated tables
+    let (policy_ix, (t, wits)) = match corpus.pop() {
+      Some((ix, t)) => {
+        let w = vec![vec![None; t.ins.len()]; t.rules.len()];
+        (ix, (t, w))
+      }
+      None => {
+        let policy_ix = if ti % 16 < 11 { ti % 16 } else { rng.below(POLICIES.len() as u64) as usize };
+        (policy_ix, gen_table(&mut rng, policy_ix))
+      }
+    };
     let xml = table_xml(&t);
     let built = guarded(|| match dmntk_model::parse(&xml) {
       Ok(d) => ModelEvaluator::new(&d).map_err(|e| format!("build-error: {}", e)),
@@ -855,14 +905,13 @@ pub fn run(cfg: &Cfg) -> Report {
         rep.disagree(Kind::ImplVsModel, "direct", "build_decision_table_evaluator and the XML path disagree on the same table", &input, d, &c.impl_obs);
       }
     }
+    if n == 0 && c.n_out > 1 && c.any_default {
+      rep.hit("no rule matches × several output clauses × default entries");
+    }
     let spec = format!("(ok {})", s);
     if c.impl_obs != spec {
       let sig = if c.impl_obs.starts_with("(panic") {
         format!("hit policy {}: panic {}", c.policy, c.impl_obs)
-      } else if n == 0 && c.n_out > 1 && c.any_default {
-        "no rule matches, several output clauses with default entries: result is not the context of the defaults".to_string()
-      } else if c.policy == "C>" && n > 1 {
-        "C> over matching outputs that include null is not null (max skips nulls, min does not)".to_string()
       } else {
         format!("hit policy {}: result differs from what the policy prescribes", c.policy)
       };
